@@ -83,7 +83,7 @@ CHECKS = {
          "real goroutines (MaxConcurrency 1 makes the log sequential; failures re-run 5x); expected per-address lists derived through ResolveResult.Targets (decided by C15)", "§3 C17"),
  "C19": ("model_checking", "E1 enum + E4 hist",
          "exhaustive decision table for the HTTP/3 choice and record filtering against a reference function; every request history up to the depth bound through the real net/http stack over in-memory TLS servers against a reference",
-         "Every set of 1..2 (3) service-mode records over 6 ALPN lists x no-default-alpn x HTTP/3 round-tripper present/absent is resolved through the in-memory DoH responder and dialed through the context-carried resolver; the protocol choice and the records reaching the dialer are compared with the model. Every request sequence of length <=2 (3) over 8 origins x 3 zones, with and without Host override, is executed with the real http.Client and Transport; plaintext refusal, upgrade, SNI/ServerName, Host header, dial address/port, resp.Request identity and per-connection origin isolation are checked.",
+         "Every set of 1..3 service-mode records over 6 ALPN lists x no-default-alpn x HTTP/3 round-tripper present/absent is resolved through the in-memory DoH responder and dialed through the context-carried resolver; the protocol choice and the records reaching the dialer are compared with the model. Every request sequence of length <=3 (4) over 8 origins x 3 zones, with and without Host override, is executed with the real http.Client and Transport; plaintext refusal, upgrade, SNI/ServerName, Host header, dial address/port, resp.Request identity and per-connection origin isolation are checked.",
          "net/http and crypto/tls goroutines run outside any scheduler (failures re-run 5x); HTTP/3 represented by a fake round-tripper that dials through the context-carried resolver; record sets with equal priorities excluded", "§3 C19"),
 }
 
